@@ -620,7 +620,9 @@ def leaf_digit_masked(F, A):
             for bb, i, s in dfn.iter_stmts():
                 if s["k"] == "assign" and s["place"]["proj"] and s["place"]["proj"][0]["k"] == "index" and not dfn.blocks[bb]["cleanup"]:
                     ve = dx.of_rvalue(s["rv"], 0)
-                    ok = any(x[0] == "bin" and x[1] == "BitAnd" and any(y[0] == "bin" and y[1] == "Sub" and y[3] == ("const", 1) and expr.has_call(y[2], "pow") for y in expr.walk(x))
+                    def pow2(y):   # 2^h written as pow(2, h) or 1 << h
+                        return expr.has_call(y, "pow") or any(z[0] == "bin" and z[1] == "Shl" and z[2] == ("const", 1) for z in expr.walk(y))
+                    ok = any(x[0] == "bin" and x[1] == "BitAnd" and any(y[0] == "bin" and y[1] == "Sub" and y[3] == ("const", 1) and pow2(y[2]) for y in expr.walk(x))
                              for x in expr.walk(ve))
                     return (ok, "every per-level leaf index is the counter masked with 2^h - 1")
     return (False, "decomposition routine not found")
